@@ -2,6 +2,7 @@
 C02 — byte-level lemmas: chunked backward line reader, cross-reference stream rows.
 -/
 import PdfVerif.Spec.XrefWrite
+import PdfVerif.Lemmas.XrefGen
 
 namespace PdfVerif.Xref
 
@@ -288,7 +289,7 @@ theorem row_encodeRows (ranges : List (Nat × Nat)) (w1 w2 w3 : Nat) (rows : Lis
     (h : rows[i]? = some r) (hf : FitsRow w1 w2 w3 r) :
     (XStream.mk ranges w1 w2 w3 (encodeRows w1 w2 w3 rows)).row i = r := by
   obtain ⟨h1, h2, h3⟩ := hf
-  simp only [XStream.row, XStream.entlen]
+  simp only [XStream.row_eq]
   rw [slice_encodeRows w1 w2 w3 rows i r h]
   simp only [encodeRow]
   rw [take_len_append' _ _ _ (length_bePack w1 r.1), drop_len_append' _ _ _ (length_bePack w1 r.1),
@@ -299,17 +300,17 @@ theorem row_encodeRows (ranges : List (Nat × Nat)) (w1 w2 w3 : Nat) (rows : Lis
   rw [hd, nunpack_bePack _ _ _ h1, nunpack_bePack _ _ _ h2, nunpack_bePack _ _ _ h3]
 
 theorem rowType_eq_row (x : XStream) (i : Nat) : x.rowType i = (x.row i).1 := by
-  simp [XStream.rowType, XStream.row, objidsTypeDefault, typeDefault]
+  simp [XStream.rowType_eq, XStream.row_eq, objidsTypeDefault, typeDefault]
 
 /-! Range-by-range specification of `/Index`: the first `c` rows belong to the first range. -/
 
 theorem findIndex_rowSpec (ranges : List (Nat × Nat)) (rows : List Row) (n acc : Nat) :
     (findIndex ranges n acc).bind (fun i => rows[i]?) = rowSpec ranges (rows.drop acc) n := by
   induction ranges generalizing acc with
-  | nil => simp [findIndex, rowSpec]
+  | nil => simp [findIndex_nil, rowSpec]
   | cons r rest ih =>
     obtain ⟨s, c⟩ := r
-    simp only [findIndex, rowSpec]
+    simp only [findIndex_cons, rowSpec]
     by_cases hin : s ≤ n ∧ n < s + c
     · simp [hin, List.getElem?_drop]
     · simp only [hin, ↓reduceIte]
@@ -319,10 +320,10 @@ theorem findIndex_rowSpec (ranges : List (Nat × Nat)) (rows : List Row) (n acc 
 theorem findIndex_lt (ranges : List (Nat × Nat)) (n acc i : Nat) (h : findIndex ranges n acc = some i) :
     i < acc + sumCounts ranges := by
   induction ranges generalizing acc with
-  | nil => simp [findIndex] at h
+  | nil => simp [findIndex_nil] at h
   | cons r rest ih =>
     obtain ⟨s, c⟩ := r
-    simp only [findIndex] at h
+    simp only [findIndex_cons] at h
     by_cases hin : s ≤ n ∧ n < s + c
     · simp only [hin, and_self, ↓reduceIte, Option.some.injEq] at h
       simp only [sumCounts]; omega
@@ -366,7 +367,7 @@ theorem objidsAux_spec (ranges : List (Nat × Nat)) (w1 w2 w3 : Nat) (rows : Lis
         rw [length_encodeRows]
         have : (w1 + w2 + w3) * (idx + i) < (w1 + w2 + w3) * rows.length := Nat.mul_lt_mul_of_pos_left hlt hpos
         simp [rowInData]; omega
-      simp only [XStream.entlen, hin, Bool.true_and]
+      simp only [XStream.entlen_eq, objidsRowOffset_eq, hin, Bool.true_and]
       rw [rowType_eq_row, row_encodeRows allr w1 w2 w3 rows (idx + i) _ hget (hf _ (List.getElem_mem hlt))]
       simp [List.getElem?_drop, hget]
     · simp [List.drop_drop]
